@@ -13883,7 +13883,14 @@ func (l *Lowerer) registerUnusedLetBindings() {
 	if l.currentFunc == nil || l.currentFunc.NamedExpressions == nil {
 		return
 	}
-	for name, handle := range l.locals {
+	// Visit the names in a fixed order: several names can be bound to one handle.
+	names := make([]string, 0, len(l.locals))
+	for name := range l.locals {
+		names = append(names, name)
+	}
+	sort.Strings(names)
+	for _, name := range names {
+		handle := l.locals[name]
 		// Skip local const declarations — they are inlined, not named expressions.
 		// Matches Rust naga where local const is Declared::Const, not in named_expressions.
 		if l.localConsts[name] {
@@ -13916,6 +13923,12 @@ func (l *Lowerer) registerUnusedLetBindings() {
 			if _, isLiteral := l.currentFunc.Expressions[handle].Kind.(ir.Literal); isLiteral {
 				continue
 			}
+		}
+		// Several unused lets can alias one expression (let b = a; let c = a;).
+		// The name registered at declaration time stays; overwriting it here
+		// would pick one of the aliases in map-iteration order.
+		if _, named := l.currentFunc.NamedExpressions[handle]; named {
+			continue
 		}
 		l.currentFunc.NamedExpressions[handle] = name
 	}
